@@ -41,26 +41,26 @@ type Report struct {
 	Shard    int    `json:"shard"`
 	Shards   int    `json:"shards"`
 
-	Evaluations int64             `json:"evaluations"`
-	Distinct    map[string]bool   `json:"-"`
-	DistinctN   int               `json:"distinct_nontrivial"`
-	DistinctH   []string          `json:"distinct_hashes,omitempty"`
-	Rule        string            `json:"rule"`
-	Samples     []any             `json:"samples"`
-	States      int64             `json:"states"`
-	Transitions int64             `json:"transitions"`
-	Traces      int64             `json:"traces_validated_against_impl"`
-	Schedules   int64             `json:"schedules"`
-	Outcomes    map[string]int64  `json:"outcomes,omitempty"`
-	Bounds      map[string]any    `json:"bounds,omitempty"`
-	Exhaustive  bool              `json:"exhaustive"`
-	Caps        []string          `json:"caps,omitempty"`
-	Notes       []string          `json:"notes,omitempty"`
-	Assumptions []string          `json:"assumptions,omitempty"`
-	Violations  []*Violation      `json:"violations"`
-	WallS       float64           `json:"wall_s"`
-	Counters    map[string]int64  `json:"counters,omitempty"`
-	HarnessErr  string            `json:"harness_error,omitempty"`
+	Evaluations int64            `json:"evaluations"`
+	Distinct    map[string]bool  `json:"-"`
+	DistinctN   int              `json:"distinct_nontrivial"`
+	DistinctH   []string         `json:"distinct_hashes,omitempty"`
+	Rule        string           `json:"rule"`
+	Samples     []any            `json:"samples"`
+	States      int64            `json:"states"`
+	Transitions int64            `json:"transitions"`
+	Traces      int64            `json:"traces_validated_against_impl"`
+	Schedules   int64            `json:"schedules"`
+	Outcomes    map[string]int64 `json:"outcomes,omitempty"`
+	Bounds      map[string]any   `json:"bounds,omitempty"`
+	Exhaustive  bool             `json:"exhaustive"`
+	Caps        []string         `json:"caps,omitempty"`
+	Notes       []string         `json:"notes,omitempty"`
+	Assumptions []string         `json:"assumptions,omitempty"`
+	Violations  []*Violation     `json:"violations"`
+	WallS       float64          `json:"wall_s"`
+	Counters    map[string]int64 `json:"counters,omitempty"`
+	HarnessErr  string           `json:"harness_error,omitempty"`
 
 	mu       sync.Mutex
 	t        *testing.T
@@ -68,6 +68,9 @@ type Report struct {
 	deadline time.Time
 	vioIdx   map[string]*Violation
 	caseIdx  int
+	// CasesEnumerated is the final running case number: every shard of a sub-check must report the same
+	// value (the runner checks it), else the case numbering is process-dependent.
+	CasesEnumerated int `json:"cases_enumerated"`
 }
 
 // Tier returns the requested tier ("quick" unless VERIF_TIER=thorough).
@@ -235,7 +238,11 @@ func (r *Report) Note(format string, a ...any) {
 }
 
 // Assume records an assumption / trusted-base statement.
-func (r *Report) Assume(s string) { r.mu.Lock(); r.Assumptions = append(r.Assumptions, s); r.mu.Unlock() }
+func (r *Report) Assume(s string) {
+	r.mu.Lock()
+	r.Assumptions = append(r.Assumptions, s)
+	r.mu.Unlock()
+}
 
 // Violate records an oracle failure.  At most one full record is kept per signature.
 func (r *Report) Violate(sig, detail string, replay any) {
@@ -345,6 +352,7 @@ func firstRepoFrame(stack string) string {
 func (r *Report) Finish() {
 	r.mu.Lock()
 	r.WallS = time.Since(r.start).Seconds()
+	r.CasesEnumerated = r.caseIdx
 	r.DistinctN = len(r.Distinct)
 	hs := make([]string, 0, len(r.Distinct))
 	for k := range r.Distinct {
